@@ -490,6 +490,24 @@ fire('cache-atomic-writer-unbound-tmp', ['C17'], ['DA'], 'write-to-temporary-the
 silent('s-cache-atomic-writer', ['C16', 'C17'], 'the pickle is written to a temporary file and moved into place (mkstemp before the try)',
        (CACHE, "    with open(_get_hashed_path(hashed_grammar, path, cache_path=cache_path), 'wb') as f:\n        pickle.dump(item, f, pickle.HIGHEST_PROTOCOL)\n", "    cache_file = _get_hashed_path(hashed_grammar, path, cache_path=cache_path)\n    directory, name = os.path.split(cache_file)\n    import tempfile\n    fd, tmp_path = tempfile.mkstemp(prefix=name + '.', suffix='.tmp', dir=directory)\n    try:\n        with os.fdopen(fd, 'wb') as f:\n            pickle.dump(item, f, pickle.HIGHEST_PROTOCOL)\n        os.replace(tmp_path, cache_file)\n    except BaseException:\n        try:\n            os.remove(tmp_path)\n        except OSError:\n            pass\n        raise\n"))
 
+# TOK-10 rest of the line kept when the scan is abandoned
+fire('tok10-contstr-from-cut-line', ['C01', 'C09'], ['TOK-10'], 'a continued triple-quoted string keeps a slice of the shortened f-string line (rt5-C01)',
+     (TOK, "                    contstr_start = spos                    # multiple lines\n                    contstr = line[start:]\n                    contline = line\n",
+      "                    contstr_start = spos                    # multiple lines\n                    cut = line[:max_]\n                    cut = cut[:pos] if fstring_stack else cut\n                    contstr = cut[start:]\n                    contline = line\n"))
+fire('tok10-continuation-drops-rest', ['C01', 'C09'], ['TOK-10', 'TOK-3'], 'a backslash continuation keeps only the backslash',
+     (TOK, "                additional_prefix += prefix + line[start:]\n                break", "                additional_prefix += prefix + initial\n                break"))
+silent('s-tok10-rest-alias', ['C01', 'C09'], 'the continued string is stored through a copy of the line variable',
+       (TOK, "                    contstr_start = spos                    # multiple lines\n                    contstr = line[start:]\n                    contline = line\n",
+        "                    contstr_start = spos                    # multiple lines\n                    whole = line\n                    contstr = whole[start:]\n                    contline = whole\n"))
+
+# PAR-12 convert_node builds the node of the reduced nonterminal
+fire('par12-walrus-argument-node', ['C05'], ['PAR-12'], 'inline walrus arguments / subscripts become NamedExpr nodes (rt5-C05)',
+     (PYPARSER, "            node = self.default_node(nonterminal, children)\n        return node", "            elif nonterminal in ('argument', 'subscript') and len(children) == 3 and children[1] == ':=':\n                return tree.NamedExpr(children)\n            node = self.default_node(nonterminal, children)\n        return node"))
+fire('par12-default-node-constant-type', ['C05'], ['PAR-12'], 'unknown rules all become generic "atom" nodes',
+     (PYPARSER, "            node = self.default_node(nonterminal, children)\n        return node", "            node = self.default_node('atom', children)\n        return node"))
+silent('s-par12-explicit-class', ['C05'], 'one rule is special-cased with its own class under a matching test',
+       (PYPARSER, "        try:\n            node = self.node_map[nonterminal](children)\n        except KeyError:\n            if nonterminal == 'suite':", "        if nonterminal == 'expr_stmt':\n            return tree.ExprStmt(children)\n        try:\n            node = self.node_map[nonterminal](children)\n        except KeyError:\n            if nonterminal == 'suite':"))
+
 # TOK-3 typestate
 fire('tok3-comment-drops-prefix', ['C01', 'C09'], ['TOK-3'], 'a comment inside brackets replaces the pending prefix instead of extending it',
      (TOK, "                else:\n                    additional_prefix = prefix + token\n            elif token in triple_quoted:", "                else:\n                    additional_prefix = token\n            elif token in triple_quoted:"))
